@@ -5,17 +5,18 @@ SPEC = dict(
     rule="3 stores generated through the real API (full + 2 incrementals; full with its own WAL + a 2-WAL incremental; an older full+incremental below a newer full+incremental); "
          "every data file x 6 corruptions (byte flip on a page boundary region, at a random offset, in the last byte; cut by one byte; cut by a third; altered checksum sidecar) "
          "x {present before the store's first use, arising after a first successful use} x 5 consumers (open+transfer into a second real store, open+Restore, reap, "
-         "restart+open+Restore, open of an older snapshot) each followed by one of 8 continuations that go on after a failing consumer (reap again; restart then each consumer; open, reap, restart, reap ...); an unreadable sidecar per file; random chains of 3-9 events biased to reap/restart; "
-         "a case is non-trivial when a consumer resolves a file whose bytes or sidecar were altered; distinct by the event list",
+         "restart+open+Restore, open of an older snapshot) each followed by one of 8 continuations that go on after a failing consumer (reap again; restart then each consumer; open, reap, restart, reap ...); checksum-record corruptions: every byte position of the record x 2 (thorough 6) bit masks, truncations, appended bytes, invalid JSON, empty, swapped fields, missing and unknown checksum type, alone and combined with a corruption of the covered data file, before first use and after, each followed by open, reap, restart, open, reap; an unreadable sidecar per file; random chains of 3-9 events biased to reap/restart; "
+         "a case is non-trivial when a consumer resolves a file whose bytes or sidecar were altered or runs while a checksum record is unusable; distinct by the event list",
     exhaustive=False, shard=200,
-    trusted=["CRC-32C detects the corruptions considered: a corrupted file no longer matches its sidecar and a corrupted sidecar no longer matches its file (premise valid_run of the theorem; the driver computes the real checksums)",
+    trusted=["the class of a mutated checksum record (usable with value v / unusable) is decided by the driver's own reference reading of the documented record format (JSON object, type castagnoli, 8 hex digits), using encoding/json",
+             "CRC-32C detects the corruptions considered: a corrupted file no longer matches its sidecar and a corrupted sidecar no longer matches its file (premise valid_run of the theorem; the driver computes the real checksums)",
              "the receiving side recomputes the checksum of what it received and compares it with the header (proved for the sink and Restore models in C10)",
              "SQLite checkpointing (the reap's consolidation) is not modelled: the consolidated file is a new file with a fresh checksum; the oracle compares it with an independent db.ReplayWAL of pristine copies"],
     assumptions=["sidecars marked Disabled (downgrade compatibility) carry no protection and are outside the theorem (generated stores have none)",
                  "corruption of the first bytes (SQLite / WAL magic) fails the catalog scan before any checksum is looked at; the driver keeps offsets >= 40"],
     level_text="C12_late_corruption_not_installed holds for every history of corruptions, opens, reaps and restarts of any length; C12_startup_corruption_detected and "
                "C12_failed_verification_is_sticky for every store state; C12_failed_reap_leaves_store_unchanged (a refused reap changed no file and wrote no plan) and "
-               "C12_no_plan_left_behind for every history; the model, including 'no REAP_PLAN / tmp entry in the store directory', is run against the real store after every event of every driver history.",
+               "C12_no_plan_left_behind for every history; C12_unknown_record_is_rejected (fail closed on a record that cannot be used) for every store state; the model, including 'no REAP_PLAN / tmp entry in the store directory', is run against the real store after every event of every driver history.",
     level_note="Model = per-file (current, recorded, original) checksums, verifyOnce, header checksums from sidecars, receiver recomputation, reap with fix C12-reap-reverify.",
     technique="Coq invariant proof over all event histories + differential run of model and real store + pristine-copy oracle on installed/restored/consolidated bytes",
     design_ref="6/C12",
